@@ -186,29 +186,123 @@ def hdr_job(name, fields, look, end="", line="R", lcb_fallback=False, timeout=No
                        "http_hdr_val_get_ex.1:%d" % (ncrlf + 2)],
          "shape": "header block template %r (%d bytes), looked-up name template %r, %s" % (
              text, total, look, "real Linux build macros" if not lcb_fallback else "liblcb fallback memmem/mem_cmpi"),
-         "desc": "http_hdr_val_get_ex / http_hdr_val_get / http_hdr_val_get_count vs by-construction answer: first match, "
-                 "trimmed value span, offset_next, second match, count"}
+         # mem_chr_ptr() is handed `end + 2` after a non-matching last field: CBMC flags the relational comparison of an
+         # out-of-object pointer; not observable natively (ASan silent), memory safety is C13's obligation
+         "prop_exclude": "pointer relation",
+         "desc": {1: "http_hdr_val_get_ex(offset 0): found iff some name matches case-insensitively; trimmed value span of the "
+                     "FIRST match; offset_next", 2: "http_hdr_val_get == first match; http_hdr_val_get_ex(offset_next) finds "
+                     "the second match or fails", 3: "http_hdr_val_get_count == number of matching fields"}[mode]}
     if timeout:
         j["timeout"] = timeout
     return j
 
 
 def hdr_jobs(tier):
+    """Block-side symbolic bytes are kept isolated (a literal byte between two symbolic ones) in most shapes and the
+    looked-up name carries the symbolic case / symbolic token bytes: CBMC's symbolic execution cannot use the class
+    assumptions, so every symbolic block byte is a potential ':' / CR for it, pointers become if-then-else terms and the
+    nested mem_find loops explode (measured: 4 adjacent symbolic name bytes, 2 fields: > 5 M SAT variables)."""
     q = tier == "quick"
     out = []
-    X = [("x1", [("%cHost", " %v")], "host", ""),
-         ("x2", [("Ho%cSt", " %va%v")], "host", ""),
-         ("x3", [("%cHos%cT", "%w%v")], "host", ""),
-         ("x4", [("%cHost", " %v"), ("hos%cT", "%v")], "host", ""),
-         ("x5", [("%tb", "%v"), ("a%t", "%v")], "a%t", ""),
-         ("x6", [("%t", " %v\r\n %v")], "%t", ""),
-         ("x7", [("%cHost", " %v"), ("%cA", "1"), ("hos%cT", "%v")], "host", ""),
-         ("x8", [("%t%t", "%v")], "%t%t", "")]
-    for n, f, l, e in X:
-        for mode in (1, 2, 3):
-            out.append(hdr_job(n, f, l, end=e, mode=mode))
+    HOST = "%ch%co%cs%ct"
+    ALL = (1, 2, 3)
+    S = [  # name, fields, look, end, modes
+        ("one", [("Host", " %v")], HOST, "", ALL),
+        ("dup", [("Host", " %v"), ("hOSt", "%va")], HOST, "", ALL),
+        ("dup-end", [("host", "%v"), ("HOST", "%v")], HOST, "\r\n", (1,) if q else (1, 3)),
+        ("lenmix", [("abc", "%v"), ("ab", "%wa")], "%t%t", "", (1, 3)),
+        ("tok", [("a!", "%v"), ("A!", "b")], "%t%t", "", (1, 3)),
+        ("ows-sym", [("ab", "%wa%w")], "%ca%cb", "", (1,)),
+        ("ows-adj", [("ab", "%w%v%w")], "ab", "", (1,)),
+        ("ows-lit", [("ab", " \t%v\t ")], "%ca%cb", "", (1, 2)),
+        ("empty", [("ab", "")], "%ca%cb", "\r\n", (1, 3)),
+        ("empty-ows", [("ab", "%w"), ("ab", "")], "ab", "\r\n", (1, 2)),
+        ("fold-mid", [("ab", " %v\r\n %v")], "%t%t", "", (1, 3)),
+        ("fold-mid-ht", [("a", "%v\r\n\t%v"), ("A", "%v")], "%ca", "", (1, 2)),
+        ("fold-lead", [("ab", "\r\n %v"), ("ab", "%v")], "%ca%cb", "", (1, 2) if q else (1, 2, 3)),
+        ("fold-trail", [("ab", "%v\r\n "), ("AB", "x")], "%ca%cb", "", (1, 2)),
+        ("fold-only", [("ab", "\r\n%w")], "%ca%cb", "\r\n", (1,)),
+        ("blk-case", [("%ca%cb", " x")], "ab", "", (1, 3)),
+        ("blk-tok", [("%t%t", "x")], "%t%t", "", (1,)),
+        ("three", [("ab", "%v"), ("c", "1"), ("AB", "%v")], "%ca%cb", "", (1, 2)),
+        ("cl", [("Content-Length", " %d")], "%cc%co%cn%ct%ce%cn%ct-%cl%ce%cn%cg%ct%ch", "", (1, 3)),
+    ]
+    if not q:
+        S += [
+            ("three-count", [("ab", "%v"), ("c", "1"), ("AB", "%v")], "%ca%cb", "", (3,)),
+            ("blk-case2", [("%cHost", " %v"), ("hos%cT", "%v")], "host", "", ALL),
+            ("blk-tok2", [("%tb", "%v"), ("a%t", "%v")], "a%t", "", (1, 3)),
+            ("fold-2", [("ab", "%v\r\n %v\r\n\t%v"), ("ab", "%v")], "%ca%cb", "", (1, 3)),
+            ("te", [("Transfer-Encoding", " %v")], "%ct%cr%ca%cn%cs%cf%ce%cr-%ce%cn%cc%co%cd%ci%cn%cg", "", (1, 3)),
+            ("val3", [("ab", "%v%v%v")], "%ca%cb", "", (1, 3)),
+        ]
+    for n, f, l, e, modes in S:
+        for mode in modes:
+            out.append(hdr_job(n, f, l, end=e, mode=mode, timeout=300 if q else None))
+    out.append(hdr_job("one-fallback", [("Host", " %v")], HOST, mode=1, lcb_fallback=True, timeout=300 if q else None))
+    out.append(hdr_job("one-fallback", [("Host", " %v")], HOST, mode=3, lcb_fallback=True, timeout=300 if q else None))
+    return out
+
+
+# ------------------------------------------------------------------ smuggling checks
+def sec_job(name, fields, end="", line="R", name_token_only=False, lcb_fallback=False, timeout=None):
+    total = tlen(line) + tlen(end) + sum(3 + tlen(n) + tlen(v) for n, v in fields)
+    nsym = tsyms(line) + tsyms(end) + sum(tsyms(n) + tsyms(v) for n, v in fields)
+    defs = {"NF": len(fields), "T_LINE": cstr(line), "T_END": cstr(end), "TOTAL": total, "NSYM": nsym}
+    for i, (n, v) in enumerate(fields):
+        defs["T_N%d" % (i + 1)] = cstr(n)
+        defs["T_V%d" % (i + 1)] = cstr(v)
+    if name_token_only:
+        defs["NAME_TOKEN_ONLY"] = None
+    if lcb_fallback:
+        defs["LCB_FALLBACK"] = None
+    text = line + "".join("\r\n" + n + ":" + v for n, v in fields) + end
+    ncrlf = text.count("\r\n") + text.count("%b%b")
+    j = {"name": "sec-" + name, "src": "sec.c", "defs": defs, "unwind": total + 4, "solver": SOLVER,
+         "unwindset": ["http_hdr_val_get_count.0:%d" % (ncrlf + 2), "http_hdr_val_get_ex.0:%d" % (ncrlf + 2),
+                       "http_hdr_val_get_ex.1:%d" % (ncrlf + 2)],
+         "prop_exclude": "pointer relation",
+         "shape": "header block template %r (%d bytes), method code symbolic 0..13, %s" % (
+             text, total, "real Linux build macros" if not lcb_fallback else "liblcb fallback memmem/mem_cmpi"),
+         "desc": "http_req_sec_chk != 0 <=> block contains control byte / SP before ':' / duplicate Host, Content-Length, "
+                 "Transfer-Encoding / CL together with TE / CL on GET (oracle from the construction)"}
+    if timeout:
+        j["timeout"] = timeout
+    return j
+
+
+def sec_jobs(tier):
+    q = tier == "quick"
+    CL, TE = "Content-Length", "Transfer-Encoding"
+    S = [
+        ("none-cl-get", [("Host", " %v"), (CL, " %d")], "", "G / H", False),
+        ("none-2", [("Host", " %va"), ("Accept", " %v")], "\r\n", "R", False),
+        ("dup-host", [("Host", " a"), ("hOS%t", " b")], "", "R", False),
+        ("dup-cl", [(CL, " %d"), ("content-lengt%t", " 1")], "", "R", False),
+        ("dup-te", [(TE, " x"), ("transfer-encodin%t", " y")], "", "R", False),
+        ("cl-te", [(CL, " %d"), ("Transfer-Encodin%t", " x")], "", "R", False),
+        ("ctrl-val", [("Host", " a%bc")], "", "R", False),
+        ("ctrl-line", [("Host", " a")], "", "G%b H", False),
+        ("ctrl-name", [("Ho%bst", " a")], "", "R", True),
+        ("ctrl-pair", [("Host", " a%b%bc")], "", "R", False),
+        ("sp-colon-name", [("Host%w", " a")], "", "R", False),
+        ("sp-colon-val", [("Host", " a%w:b")], "", "R", False),
+        ("sp-colon-line", [("Host", " a")], "", "G%w:", False),
+        ("fold-hide", [("X", " a\r\n Host: b"), ("Hos%t", " c")], "", "R", False),
+        ("three", [("Host", " a"), (CL, " 1"), ("Hos%t", "b")], "", "R", False),
+    ]
+    if not q:
+        S += [
+            ("three-te", [(TE, " a"), ("Hos%t", " 1"), ("Transfer-Encodin%t", "b")], "\r\n", "R", False),
+            ("case-cl", [("%cContent-Lengt%ch", " 1"), ("a", "b")], "", "R", False),
+            ("ctrl-end", [("Host", " a")], "%b", "R", False),
+            ("val-2", [("Host", " %v%v"), (CL, "%w%d")], "", "R", False),
+        ]
+    out = [sec_job(n, f, end=e, line=l, name_token_only=t, timeout=300 if q else None) for n, f, e, l, t in S]
+    if not q:
+        out.append(sec_job("dup-host-fallback", [("Host", " a"), ("hOS%t", " b")], lcb_fallback=True))
     return out
 
 
 def jobs(tier):
-    return reqline_jobs(tier) + respline_jobs(tier) + hdr_jobs(tier)
+    return reqline_jobs(tier) + respline_jobs(tier) + hdr_jobs(tier) + sec_jobs(tier)
